@@ -14,10 +14,14 @@ FILES = {
     'src/frame_buffer.rs': ['C06', 'C05', 'C03'], 'src/heartbeats.rs': ['C17'], 'src/io_loop/heartbeat_timers.rs': ['C17'],
     'src/io_loop/handshake_state.rs': ['C16', 'C15'], 'src/io_loop/connection_state.rs': ['C03', 'C04', 'C07', 'C08', 'C09', 'C11', 'C13', 'C20'],
     'src/io_loop/mod.rs': ['C01', 'C05', 'C08', 'C10', 'C16', 'C17', 'C18', 'C20', 'C06'], 'src/io_loop/io_loop_handle.rs': ['C04', 'C05', 'C09', 'C01', 'C02'],
-    'src/io_loop/channel_handle.rs': ['C02', 'C12', 'C15', 'C13', 'C09'], 'src/serialize.rs': ['C01', 'C02', 'C08'], 'src/connection_options.rs': ['C15', 'C16'],
+    'src/io_loop/channel_handle.rs': ['C02', 'C12', 'C15', 'C13', 'C09'], 'src/serialize.rs': ['C01', 'C02', 'C08'], 'src/connection_options.rs': ['C15', 'C16', 'C19'], 'src/auth.rs': ['C16', 'C19'],
     'src/channel.rs': ['C12', 'C04'], 'src/queue.rs': ['C12'], 'src/exchange.rs': ['C12'], 'src/consumer.rs': ['C12', 'C11'], 'src/delivery.rs': ['C12'],
-    'src/connection.rs': ['C19', 'C05', 'C08', 'C10', 'C13'],
+    'src/connection.rs': ['C19', 'C18', 'C05', 'C08', 'C10', 'C13'],
 }
+# MUT_FILES=<regex> restricts a campaign to some files, MUT_TAG=<suffix> keeps its list / results apart (mutants/list<TAG>.json, results<TAG>.jsonl)
+if os.environ.get('MUT_FILES'):
+    FILES = {k: v for k, v in FILES.items() if re.search(os.environ['MUT_FILES'], k)}
+TAG = os.environ.get('MUT_TAG', '')
 SWAP = {'==': ['!='], '!=': ['=='], '<': ['<='], '<=': ['<'], '>': ['>='], '>=': ['>'], '&&': ['||'], '||': ['&&'], '+': ['-'], '-': ['+']}
 
 
@@ -74,7 +78,7 @@ def gen(n, seed):
             break
     os.makedirs(os.path.join(ROOT, 'mutants'), exist_ok=True)
     json.dump([{'id': 'M%03d' % i, 'file': c[0], 'line': c[1], 'b': c[2], 'e': c[3], 'from': c[4], 'to': c[5]} for i, c in enumerate(pick)],
-              open(os.path.join(ROOT, 'mutants', 'list.json'), 'w'), indent=0)
+              open(os.path.join(ROOT, 'mutants', 'list%s.json' % TAG), 'w'), indent=0)
     print(len(allc), 'candidates,', len(pick), 'picked;', per)
 
 
@@ -127,9 +131,9 @@ def run_one(m, slot):
 def run(jobs):
     from concurrent.futures import ThreadPoolExecutor
     import threading, queue
-    ms = json.load(open(os.path.join(ROOT, 'mutants', 'list.json')))
+    ms = json.load(open(os.path.join(ROOT, 'mutants', 'list%s.json' % TAG)))
     done = set()
-    rp = os.path.join(ROOT, 'mutants', 'results.jsonl')
+    rp = os.path.join(ROOT, 'mutants', 'results%s.jsonl' % TAG)
     if os.path.exists(rp):
         for l in open(rp):
             done.add(json.loads(l)['id'])
